@@ -93,6 +93,13 @@ fn mk(prop: &str, rule: &str, a: &Pkt, idw: usize, detail: String, case: (u64, u
 /// All C02 + C03 identities for one abstract packet and one id type.
 fn check_one<P: Pid>(a: &Pkt, which: &str, rep: &mut Report, case: (u64, u64)) {
     let idw = P::WIDTH;
+    // every other case reaches the same field values through a permuted sequence of builder / setter calls with
+    // overwritten decoy values: the packet is a function of its fields, not of the calls that set them
+    let permuted = case.0 == 1 && (case.1 / 58) % 2 == 1;
+    let _order = bridge::BuildOrder::set(if permuted { crate::rng::derive(0xB1D, case.0, case.1) | 1 } else { 0 });
+    if permuted {
+        rep.count("built_with_permuted_setter_order");
+    }
     let built = guard::call(|| bridge::to_lib::<P>(a));
     let p: GenericPacket<P> = match built {
         Err(pn) => {
